@@ -32,5 +32,14 @@ SPEC = {
     ],
 }
 MUTATIONS = """
-(filled in after the dry-runs)
+Dry-runs on a scratch copy (VERIF_REPO=/var/tmp/mC07 ./check C07 quick):
+ M1 incrementality.go: drop `sort.Strings(provideKeys)` in ruleHash -> exit 1: providesSorted=false breaks C07_facts_ok (8/9),
+    extract/c07 lists the range as UNSORTED, failing inputs both in-process (violation-rulehash-depends-on-order: a `perm` op whose
+    shuffled constructions give several rule hashes) and end to end (violation-plz-hash-nondeterministic: two `plz hash --detailed`
+    invocations print different rule hashes).
+ M2 build_target.go: drop `sort.Sort(ret)` in DeclaredDependencies -> exit 1, depsSorted=false, failing input in-process
+    (dependencies added in another order hash differently).
+ M3 hashMap: drop `sort.Strings(keys)` -> exit 1, in-process and end-to-end failing inputs.
+ M4 allBuildInputs: drop `sort.Strings(keys)` -> exit 1, in-process and end-to-end failing inputs (named sources).
+ M5 harmless: rename provideKeys -> langs -> exit 0 (phase-3 log).
 """
